@@ -57,4 +57,6 @@ func Run(c *hx.Ctx) {
 	c09.RunBnd(c, "C10", c.N(30, 300))
 	// proxy10: a streamed response reset before the worker picked its head up (last: the kinds above draw from c.Rng as before)
 	c03.RunSRW(c, "C10")
+	// c10p10: the ledger across cluster updates with units in flight — manager identity (harness/c10/c10p10_share.go, kind rsh)
+	RunShare(c, c.N(150, 900))
 }
